@@ -146,7 +146,7 @@ exclude(NOTIF + ":PictureNotificationProtocolEntity",
 
 
 def notif_attrs(_type, _from):
-    return {"id": ID, "from": _from, "type": CONST(_type), "t": TS, "notify": TEXT, "offline": WORD("0", "1")}
+    return {"id": ID, "from": _from, "type": CONST(_type), "t": TS, "notify": OPT(TEXT), "offline": OPT(WORD("0", "1"))}
 
 
 recv(NOTIF + ":SetPictureNotificationProtocolEntity",
